@@ -42,7 +42,6 @@ CFG = {
         "Swat4.C12.lost_if_dies",
         "Swat4.C12.witnessOne_init",
         "Swat4.C12.lost_if_dies_done",
-        "Swat4.C12.never_queued_explicit",
         "Swat4.C12.queued_otherwise",
         "Swat4.C12.implicit_ready_always_queued",
         "Swat4.C12.pastExpiry_init",
@@ -68,17 +67,18 @@ CFG = {
         {"name": "Swat4.C12.enqueue_one_batch", "why": "read-back of the definition (`qstep` on `.enqueue … .start` by `rfl`)"},
         {"name": "Swat4.C12.enqueue_uses_fresh", "why": "read-back of the definition (`qstep` / `enqueueBatch` by `rfl`; the reachable-state statement is ids_fresh)"},
         {"name": "Swat4.C12.pop_nonpositive", "why": "read-back of the definition (`QOp.begin` unfolded)"},
+        {"name": "Swat4.C12.never_queued_explicit", "why": "read-back of the definition (`QOp.begin` by cases on the two bounds); the system-level statement is never_queued_explicit_sys (audited)"},
     ],
     "shards": (4, 16),
     "nontrivial": _nontrivial,
     "rule": "(a) sequential histories of AddBetween / PopMany(n) / clock advance on the real probes repository with ready and expiry times before, "
             "at and after the clock (+-256ns); (b) a pre-filled queue, then two PopMany consumers and one producer interleaved storage command by "
             "storage command (ZRANGEBYSCORE / MULTI-EXEC granularity) with clock ticks and a consumer death before/after a command; every probe "
-            "carries a unique port (identity), ready times are pairwise distinct (Redis orders equal scores by member text); compared: command "
+            "carries a unique port (identity; the oracle still compares the WHOLE payload - address, port, goal, retries, max, and for queued items the expiry - with the enqueued probe of that port), ready times are pairwise distinct (Redis orders equal scores by member text); compared: command "
             "trace, returned batches and expired counts, raw probes:* keys; oracle on the implementation's outputs: conservation of probes, "
             "at-most-once, batch size, not-early/not-late, never-queued, WHICH probes vanished (each vanished probe is attributable to a consumer's expired count: "
             "ready and past its expiry at that consumer's clock - no unexpired probe vanishes), batch order (every returned batch sorted by ready time; a violation is "
-            "classified late-past-ready = regression of PopMany's final sort, or batch-unsorted), keyspace consistency",
+            "classified late-past-ready = regression of PopMany's final sort, or batch-unsorted), keyspace consistency; a case the scheduler gave up on (HUNG) fails with sig=hung",
     "assumptions": [
         "a client reads the clock when it arrives at a storage command (the scheduler only moves the clock while every client is blocked at a command)",
         "probe identity = unique port number chosen by the generator (the repository's UUIDs are renamed canonically in dumps)",
@@ -103,7 +103,7 @@ CFG = {
                 "batch), not_late (returned => no expiry or expiry >= clock at the pop batch; otherwise counted), no_leak_run / no_leak_finish "
                 "(C10 invariant at every reachable state), conservation_final / timing_final (same in the state after the driver's completion "
                 "phase). The clause 'a probe whose ready time is not earlier than its expiry is never queued' "
-                "is FALSE of model and code for an implicit ready time: never_queued_explicit (the call issues no command IFF both bounds are explicit and after >= before), "
+                "is FALSE of model and code for an implicit ready time: never_queued_explicit [supporting read-back of QOp.begin, not audited] (the call issues no command IFF both bounds are explicit and after >= before), "
                 "never_queued_explicit_sys / ready_past_expiry_only_implicit (every interleaving: each accepted enqueue record is attributed to its producing call enqueue probe after expires, and an explicit after is the record's ready time and strictly before an explicit expiry; "
                 "hence a queued probe with ready >= expiry can only stem from an implicit ready time), "
                 "implicit_ready_always_queued / implicit_ready_past_expiry_is_queued (enqueue p none (some b) is queued whatever the clock, e.g. clock 100 >= b 50: checked witness; probes.go tests "
